@@ -1,1 +1,605 @@
-fn main() {}
+//! tvc-sched — C05: the engine's real UCI command loop and search thread under the shuttle runtime with
+//! an exhaustive, preemption-bounded, yield-aware depth-first scheduler (see /verif/DESIGN.md, C05).
+//! usage: tvc-sched C05 <quick|thorough> | tvc-sched replay <file> | tvc-sched script <letters> <bound>
+
+#![allow(clippy::all)]
+
+include!("../../common/glue.rs");
+
+#[path = "../../tvc/src/util.rs"]
+mod util;
+#[path = "../../tvc/src/report.rs"]
+mod report;
+
+pub mod verif_shim {
+    pub use ::std::*;
+    pub mod sync {
+        pub use ::shuttle::sync::*;
+    }
+    pub mod thread {
+        pub use ::shuttle::thread::*;
+    }
+}
+
+pub mod verif_hooks {
+    use std::cell::{Cell, RefCell};
+    use std::sync::atomic::Ordering::SeqCst;
+
+    thread_local! {
+        pub static LOG: RefCell<Vec<String>> = const { RefCell::new(Vec::new()) };
+        /// the running search has no limit of its own: its polls are blocking waits for the stop flag
+        pub static PARK: Cell<bool> = const { Cell::new(false) };
+        /// the process has exited (quit): searches still alive end
+        pub static EXITED: Cell<bool> = const { Cell::new(false) };
+        pub static POLLS: Cell<u64> = const { Cell::new(0) };
+    }
+
+    pub fn poll(flag: &crate::verif_shim::sync::Arc<crate::verif_shim::sync::atomic::AtomicBool>) -> Option<bool> {
+        POLLS.with(|p| p.set(p.get() + 1));
+        if PARK.with(|p| p.get()) {
+            // an unbounded search: between polls it performs no synchronisation, so "keeps searching and
+            // polls now and then" is stutter-equivalent to waiting at the poll until the flag is set
+            loop {
+                if flag.load(SeqCst) {
+                    return Some(true);
+                }
+                if EXITED.with(|e| e.get()) {
+                    return Some(true);
+                }
+                ::shuttle::thread::yield_now();
+            }
+        }
+        None
+    }
+
+    pub fn nodes(_n: u64) {}
+
+    pub fn response(line: &str) -> bool {
+        LOG.with(|l| l.borrow_mut().push(line.to_string()));
+        true
+    }
+}
+
+use report::Run;
+use shuttle::scheduler::{Schedule, Scheduler, Task, TaskId};
+use std::collections::BTreeSet;
+use std::sync::{Arc, Mutex};
+use util::J;
+use verif_hooks::{EXITED, LOG, PARK};
+
+// ------------------------------------------------------------------------------------------------ scheduler
+
+#[derive(Default)]
+struct Shared {
+    /// (choice taken, number of options) per scheduling step of the current execution
+    levels: Vec<(usize, usize)>,
+    executions: u64,
+    steps: u64,
+    max_depth: usize,
+    nondeterminism: Option<String>,
+}
+
+/// Depth-first enumeration of all scheduling choices with a preemption bound. A task that yields is
+/// not re-chosen while another task is runnable (sound for pure spin-waits). Canonical order: the
+/// running task first; switching away from a runnable, non-yielding running task costs one preemption.
+struct YDfs {
+    sh: Arc<Mutex<Shared>>,
+    step: usize,
+    started: bool,
+    bound: usize,
+    preempt: usize,
+    /// replay mode: follow exactly these choices, then stop
+    replay: Option<Vec<usize>>,
+    done_replay: bool,
+}
+
+impl YDfs {
+    fn new(bound: usize, sh: Arc<Mutex<Shared>>) -> Self {
+        YDfs { sh, step: 0, started: false, bound, preempt: 0, replay: None, done_replay: false }
+    }
+    fn replaying(choices: Vec<usize>, sh: Arc<Mutex<Shared>>) -> Self {
+        YDfs { sh, step: 0, started: false, bound: usize::MAX, preempt: 0, replay: Some(choices), done_replay: false }
+    }
+}
+
+impl Scheduler for YDfs {
+    fn new_execution(&mut self) -> Option<Schedule> {
+        let mut sh = self.sh.lock().unwrap();
+        if self.replay.is_some() {
+            if self.done_replay {
+                return None;
+            }
+            self.done_replay = true;
+            sh.levels.clear();
+        } else if self.started {
+            // advance the odometer: drop exhausted trailing levels, bump the last one
+            while let Some(&(c, n)) = sh.levels.last() {
+                if c + 1 >= n {
+                    sh.levels.pop();
+                } else {
+                    break;
+                }
+            }
+            match sh.levels.last_mut() {
+                None => return None,
+                Some(l) => l.0 += 1,
+            }
+        }
+        self.started = true;
+        self.step = 0;
+        self.preempt = 0;
+        sh.executions += 1;
+        Some(Schedule::new(0))
+    }
+
+    fn next_task(&mut self, runnable: &[&Task], current: Option<TaskId>, is_yielding: bool) -> Option<TaskId> {
+        let mut sh = self.sh.lock().unwrap();
+        let mut opts: Vec<TaskId> = runnable.iter().map(|t| t.id()).collect();
+        if is_yielding && opts.len() > 1 {
+            if let Some(c) = current {
+                opts.retain(|t| *t != c);
+            }
+        }
+        let cur_in = current.map_or(false, |c| opts.contains(&c));
+        if cur_in {
+            let c = current.unwrap();
+            let p = opts.iter().position(|t| *t == c).unwrap();
+            opts.swap(0, p);
+            if self.preempt >= self.bound {
+                opts.truncate(1);
+            }
+        }
+        let choice = if let Some(r) = &self.replay {
+            let c = r.get(self.step).copied().unwrap_or(0);
+            if c >= opts.len() {
+                sh.nondeterminism = Some(format!("replay: choice {c} of {} options at step {}", opts.len(), self.step));
+                0
+            } else {
+                sh.levels.push((c, opts.len()));
+                c
+            }
+        } else if self.step < sh.levels.len() {
+            let (c, n) = sh.levels[self.step];
+            if n != opts.len() {
+                sh.nondeterminism = Some(format!("step {}: {} options now, {} when this prefix was first run", self.step, opts.len(), n));
+                return None;
+            }
+            c
+        } else {
+            sh.levels.push((0, opts.len()));
+            0
+        };
+        if cur_in && choice != 0 {
+            self.preempt += 1;
+        }
+        self.step += 1;
+        sh.steps += 1;
+        if self.step > sh.max_depth {
+            sh.max_depth = self.step;
+        }
+        Some(opts[choice])
+    }
+
+    fn next_u64(&mut self) -> u64 {
+        0
+    }
+}
+
+// ------------------------------------------------------------------------------------------------ scripts
+
+pub const ALPHABET: &[u8] = b"INPHFDGSAQ";
+
+pub fn letter_name(c: u8) -> &'static str {
+    match c {
+        b'I' => "isready",
+        b'N' => "ucinewgame+position",
+        b'P' => "position",
+        b'H' => "setoption Hash",
+        b'F' => "go depth 1",
+        b'D' => "go depth 3",
+        b'G' => "go infinite",
+        b'S' => "stop",
+        b'A' => "(await bestmove)",
+        b'Q' => "quit",
+        b'E' => "(epilogue: stop if needed, await, isready)",
+        _ => "?",
+    }
+}
+
+/// A conforming GUI: go / ucinewgame / position / setoption only while no bestmove is outstanding;
+/// await only when one is outstanding and can arrive; stop and isready anywhere; quit last.
+pub fn well_formed(s: &[u8]) -> bool {
+    let mut outstanding = false;
+    let mut can_arrive = false;
+    for (i, &c) in s.iter().enumerate() {
+        match c {
+            b'N' | b'P' | b'H' => {
+                if outstanding {
+                    return false;
+                }
+            }
+            b'F' | b'D' => {
+                if outstanding {
+                    return false;
+                }
+                outstanding = true;
+                can_arrive = true;
+            }
+            b'G' => {
+                if outstanding {
+                    return false;
+                }
+                outstanding = true;
+                can_arrive = false;
+            }
+            b'S' => {
+                if outstanding {
+                    can_arrive = true;
+                }
+            }
+            b'A' => {
+                if !outstanding || !can_arrive {
+                    return false;
+                }
+                outstanding = false;
+            }
+            b'Q' => {
+                if i != s.len() - 1 {
+                    return false;
+                }
+            }
+            _ => {}
+        }
+    }
+    true
+}
+
+const POS: &str = "position fen 8/8/8/8/8/8/4P3/K6k w - - 0 1";
+
+fn count(prefix: &str) -> usize {
+    LOG.with(|l| l.borrow().iter().filter(|x| x.starts_with(prefix)).count())
+}
+
+fn await_bestmoves(gos: usize) {
+    while count("bestmove") < gos {
+        shuttle::thread::yield_now();
+    }
+}
+
+/// The GUI task: the real command loop driven by one script. Panics (= failing execution) on a
+/// violated expectation; a hang shows up as a shuttle deadlock or as the step bound.
+fn run_script(script: &[u8], abstract_states: &Mutex<BTreeSet<String>>) {
+    LOG.with(|l| l.borrow_mut().clear());
+    PARK.with(|p| p.set(false));
+    EXITED.with(|e| e.set(false));
+    let mut u = engine::uci::Uci::verif_new(1);
+    u.verif_run_line(POS).unwrap();
+    let (mut gos, mut isr) = (0usize, 0usize);
+    let (mut outstanding, mut can_arrive, mut quit) = (false, false, false);
+    let mut full: Vec<u8> = script.to_vec();
+    if !full.ends_with(b"Q") {
+        full.push(b'E');
+    }
+    for c in full {
+        match c {
+            b'I' => {
+                assert!(u.verif_run_line("isready").unwrap());
+                isr += 1;
+                assert_eq!(count("readyok"), isr, "isready not answered by readyok");
+            }
+            b'N' => {
+                assert!(u.verif_run_line("ucinewgame").unwrap());
+                assert!(u.verif_run_line(POS).unwrap());
+            }
+            b'P' => {
+                assert!(u.verif_run_line("position fen 8/8/8/8/8/8/4P3/K6k w - - 0 1 moves e2e4").unwrap());
+            }
+            b'H' => {
+                assert!(u.verif_run_line("setoption name Hash value 2").unwrap());
+            }
+            b'F' | b'D' | b'G' => {
+                PARK.with(|p| p.set(c == b'G'));
+                let line = match c {
+                    b'F' => "go depth 1",
+                    b'D' => "go depth 3",
+                    _ => "go infinite",
+                };
+                assert!(u.verif_run_line(line).unwrap());
+                gos += 1;
+                outstanding = true;
+                can_arrive = c != b'G';
+            }
+            b'S' => {
+                assert!(u.verif_run_line("stop").unwrap());
+                if outstanding {
+                    can_arrive = true;
+                }
+            }
+            b'A' => {
+                await_bestmoves(gos);
+                outstanding = false;
+            }
+            b'Q' => {
+                assert!(!u.verif_run_line("quit").unwrap(), "quit does not end the command loop");
+                quit = true;
+                EXITED.with(|e| e.set(true));
+            }
+            b'E' => {
+                if outstanding {
+                    if !can_arrive {
+                        assert!(u.verif_run_line("stop").unwrap());
+                    }
+                    await_bestmoves(gos);
+                    outstanding = false;
+                }
+                assert!(u.verif_run_line("isready").unwrap());
+                isr += 1;
+                assert_eq!(count("readyok"), isr, "isready not answered by readyok");
+            }
+            _ => unreachable!(),
+        }
+        assert!(count("bestmove") <= gos, "more bestmove answers than go commands");
+        if !quit {
+            let st = u.verif_protocol_state();
+            abstract_states.lock().unwrap().insert(format!("control={} latch={} state_free={} outstanding={} pending_bestmoves={}", st.0, st.1, st.2, outstanding, gos - count("bestmove")));
+        }
+    }
+    if !quit {
+        assert_eq!(count("bestmove"), gos, "a go was not answered by exactly one bestmove");
+    }
+    EXITED.with(|e| e.set(true));
+}
+
+pub fn all_scripts(maxlen: usize) -> Vec<Vec<u8>> {
+    let mut out = vec![];
+    let mut last: Vec<Vec<u8>> = vec![vec![]];
+    for _ in 0..maxlen {
+        let mut next = vec![];
+        for s in &last {
+            for a in ALPHABET {
+                let mut t = s.clone();
+                t.push(*a);
+                if well_formed(&t) {
+                    next.push(t);
+                }
+            }
+        }
+        out.extend(next.iter().cloned());
+        // a script ending in quit cannot be extended
+        last = next.into_iter().filter(|s| !s.ends_with(b"Q")).collect();
+    }
+    out
+}
+
+pub struct Explored {
+    pub executions: u64,
+    pub steps: u64,
+    pub max_depth: usize,
+    /// failing execution: (message, choice list)
+    pub failure: Option<(String, Vec<usize>)>,
+    pub nondeterminism: Option<String>,
+}
+
+fn config() -> shuttle::Config {
+    let mut cfg = shuttle::Config::new();
+    cfg.stack_size = 16 * 1024 * 1024;
+    cfg.failure_persistence = shuttle::FailurePersistence::None;
+    cfg.max_steps = shuttle::MaxSteps::FailAfter(20_000);
+    cfg.silence_warnings = true;
+    cfg
+}
+
+/// All schedules of one script with at most `bound` preemptions (stops at the first failing one).
+pub fn explore(script: &[u8], bound: usize, abs: &Arc<Mutex<BTreeSet<String>>>) -> Explored {
+    let sh = Arc::new(Mutex::new(Shared::default()));
+    let (s2, sh2, abs2) = (script.to_vec(), sh.clone(), abs.clone());
+    let r = util::catch(move || {
+        let runner = shuttle::Runner::new(YDfs::new(bound, sh2), config());
+        runner.run(move || run_script(&s2, &abs2));
+    });
+    let sh = sh.lock().unwrap();
+    Explored {
+        executions: sh.executions,
+        steps: sh.steps,
+        max_depth: sh.max_depth,
+        failure: r.err().map(|m| (m, sh.levels.iter().map(|l| l.0).collect())),
+        nondeterminism: sh.nondeterminism.clone(),
+    }
+}
+
+/// One schedule, given by its choice list. Returns (response log, failure message).
+pub fn replay_schedule(script: &[u8], choices: &[usize]) -> (Vec<String>, Option<String>, Option<String>) {
+    let sh = Arc::new(Mutex::new(Shared::default()));
+    let abs = Arc::new(Mutex::new(BTreeSet::new()));
+    let (s2, sh2, c2) = (script.to_vec(), sh.clone(), choices.to_vec());
+    let r = util::catch(move || {
+        let runner = shuttle::Runner::new(YDfs::replaying(c2, sh2), config());
+        runner.run(move || run_script(&s2, &abs));
+    });
+    // time and nps depend on the real clock: removed before logs are compared
+    let log = LOG.with(|l| l.borrow().iter().map(|x| strip_info(x)).collect::<Vec<_>>());
+    let nd = sh.lock().unwrap().nondeterminism.clone();
+    (log, r.err(), nd)
+}
+
+fn strip_info(line: &str) -> String {
+    let w: Vec<&str> = line.split_whitespace().collect();
+    let mut out = vec![];
+    let mut i = 0;
+    while i < w.len() {
+        if w[i] == "time" || w[i] == "nps" {
+            i += 2;
+            continue;
+        }
+        out.push(w[i]);
+        i += 1;
+    }
+    out.join(" ")
+}
+
+fn script_text(s: &[u8]) -> String {
+    s.iter().map(|c| letter_name(*c)).collect::<Vec<_>>().join(" ; ")
+}
+
+fn case_json(script: &[u8], bound: usize, choices: &[usize]) -> J {
+    J::obj(vec![
+        ("kind", J::s("uci-schedule")),
+        ("script", J::s(String::from_utf8_lossy(script).to_string())),
+        ("script_text", J::s(script_text(script))),
+        ("preemption_bound", J::i(bound as i64)),
+        ("schedule", J::Arr(choices.iter().map(|c| J::i(*c as i64)).collect())),
+    ])
+}
+
+struct Tier {
+    /// (max script length, preemption bound)
+    levels: Vec<(usize, usize)>,
+    fixpoint_len: usize,
+}
+
+fn c05(run: &Run) -> i32 {
+    let tier = if run.quick() { Tier { levels: vec![(3, 3), (4, 2), (5, 1)], fixpoint_len: 5 } } else { Tier { levels: vec![(3, 4), (5, 3), (6, 2)], fixpoint_len: 6 } };
+    let maxlen = tier.levels.iter().map(|l| l.0).max().unwrap();
+    let scripts = all_scripts(maxlen);
+    let by_len: Vec<usize> = (1..=maxlen).map(|l| scripts.iter().filter(|s| s.len() == l).count()).collect();
+    run.note(format!("alphabet {:?}; well-formed scripts per length 1..={maxlen}: {:?}", ALPHABET.iter().map(|c| letter_name(*c)).collect::<Vec<_>>(), by_len));
+    // work items: (script, bound) with the largest bound that applies to the script's length
+    let mut items: Vec<(Vec<u8>, usize)> = vec![];
+    for s in &scripts {
+        if let Some(b) = tier.levels.iter().filter(|(l, _)| s.len() <= *l).map(|(_, b)| *b).max() {
+            items.push((s.clone(), b));
+        }
+    }
+    let abs_by_len: Vec<Arc<Mutex<BTreeSet<String>>>> = (0..=maxlen).map(|_| Arc::new(Mutex::new(BTreeSet::new()))).collect();
+    let totals = Mutex::new((0u64, 0u64, 0usize)); // executions, steps, max depth
+    let failing: Mutex<Vec<(Vec<u8>, usize, String, Vec<usize>)>> = Mutex::new(vec![]);
+    let outcomes: Mutex<BTreeSet<String>> = Mutex::new(BTreeSet::new());
+    util::par_for(items.len(), |i| {
+        let (s, b) = &items[i];
+        let e = explore(s, *b, &abs_by_len[s.len()]);
+        let mut t = totals.lock().unwrap();
+        t.0 += e.executions;
+        t.1 += e.steps;
+        t.2 = t.2.max(e.max_depth);
+        drop(t);
+        if let Some(nd) = e.nondeterminism {
+            run.machinery_error(format!("script {}: uncontrolled nondeterminism: {nd}", String::from_utf8_lossy(s)));
+        }
+        outcomes.lock().unwrap().insert(format!("{}:{}", e.executions.min(50), e.failure.is_some()));
+        if let Some((msg, choices)) = e.failure {
+            failing.lock().unwrap().push((s.clone(), *b, msg, choices));
+        }
+    });
+    let (execs, steps, maxd) = *totals.lock().unwrap();
+    for (l, b) in &tier.levels {
+        let n = items.iter().filter(|(s, bb)| s.len() <= *l && bb == b).count();
+        run.note(format!("scripts of length <= {l} explored at preemption bound {b}: {n}"));
+    }
+    run.family("E6-SCHEDULES", &format!("well-formed scripts over a {}-letter alphabet; (max length, preemption bound) = {:?}; every schedule of the GUI task and the search task(s) at shuttle's scheduling points within the bound", ALPHABET.len(), tier.levels), execs, steps, true, &format!("{} scripts, longest schedule {} steps", items.len(), maxd));
+    // failures: shortest script first, replayed twice before being reported
+    let mut fails = failing.into_inner().unwrap();
+    fails.sort_by(|a, b| (a.0.len(), &a.0).cmp(&(b.0.len(), &b.0)));
+    for (s, b, msg, choices) in &fails {
+        let (log1, f1, nd1) = replay_schedule(s, choices);
+        let (log2, f2, _) = replay_schedule(s, choices);
+        if nd1.is_some() || log1 != log2 || f1.is_some() != f2.is_some() {
+            run.machinery_error(format!("script {}: the failing schedule does not replay deterministically ({:?})", String::from_utf8_lossy(s), nd1));
+            continue;
+        }
+        if f1.is_none() {
+            run.machinery_error(format!("script {}: the failing schedule passes when replayed", String::from_utf8_lossy(s)));
+            continue;
+        }
+        let kind = if msg.contains("deadlock") { "uci-deadlock" } else if msg.contains("max_steps") || msg.contains("exceeded") { "uci-livelock" } else { "uci-protocol" };
+        let short = msg.lines().next().unwrap_or("").chars().take(200).collect::<String>();
+        run.violation(kind, format!("{kind}|script {}", String::from_utf8_lossy(s)), case_json(s, *b, choices), format!("[{}] under a schedule with <= {b} preemptions: {short}; responses so far: {:?}", script_text(s), log1));
+    }
+    run.count("failing_scripts", fails.len() as u64);
+    // abstract-state fixpoint
+    let mut q: Vec<BTreeSet<String>> = vec![];
+    let mut acc = BTreeSet::new();
+    for l in 1..=maxlen {
+        acc.extend(abs_by_len[l].lock().unwrap().iter().cloned());
+        q.push(acc.clone());
+    }
+    let sizes: Vec<usize> = q.iter().map(|s| s.len()).collect();
+    let closed = sizes.len() >= 2 && sizes[sizes.len() - 1] == sizes[sizes.len() - 2];
+    run.note(format!("abstract protocol states |Q_L| for L = 1..={maxlen}: {:?}; closed at the last step: {closed}", sizes));
+    run.count("abstract_states", *sizes.last().unwrap_or(&0) as u64);
+    let _ = tier.fixpoint_len;
+    for st in q.last().unwrap().iter().take(6) {
+        run.sample(J::obj(vec![("abstract_state", J::s(st.clone()))]));
+    }
+    run.sample(J::obj(vec![("script", J::s("FANS")), ("meaning", J::s(script_text(b"FANS"))), ("schedules", J::s("every interleaving of the GUI task and the search task with at most 2 preemptions"))]));
+    for o in outcomes.lock().unwrap().iter() {
+        run.distinct_outcome(o.clone());
+    }
+    if outcomes.lock().unwrap().len() < 2 {
+        run.machinery_error("vacuity guard: every script has the same number of schedules".to_string());
+    }
+    *run.traces_validated.lock().unwrap() = execs;
+    run.assume("shuttle explores sequentially consistent interleavings; the only atomic of the protocol is the stop flag (Relaxed), whose late visibility can only delay the observation of a stop");
+    run.assume("an unbounded search (go infinite) is modelled as a blocking wait at its polling point (hook H1): between polls the search performs no synchronisation");
+    run.assume("preemption-bounded: a schedule needing more preemptions than the stated bound is not explored; yields (spin-waits) are free");
+    run.assume("if the abstract state set is closed (coverage.notes), blocking behaviour of longer histories is covered under the assumption that it depends only on control / latch / mutex / outstanding searches");
+    report::finish(run, execs + *sizes.last().unwrap_or(&0) as u64, steps, "every well-formed command script up to the stated length x every schedule within the stated preemption bound, executed on the real Uci command loop and search closure: no deadlock, no livelock, every isready answered, every go answered by exactly one bestmove, quit ends the loop", true)
+}
+
+fn main() {
+    let args: Vec<String> = std::env::args().collect();
+    util::install_quiet_panic_hook();
+    init();
+    match args.get(1).map(|s| s.as_str()) {
+        Some("C05") => {
+            let tier = args.get(2).map(|s| s.as_str()).unwrap_or("quick");
+            let seed: u64 = std::env::var("VERIF_SEED").ok().and_then(|s| s.parse().ok()).unwrap_or(0);
+            let run: &'static Run = Box::leak(Box::new(Run::new("C05", tier, seed)));
+            std::process::exit(c05(run));
+        }
+        Some("script") => {
+            let s = args[2].as_bytes().to_vec();
+            let b: usize = args.get(3).and_then(|x| x.parse().ok()).unwrap_or(2);
+            let abs = Arc::new(Mutex::new(BTreeSet::new()));
+            let e = explore(&s, b, &abs);
+            println!("script {} [{}] bound {b}: executions {} steps {} failure {:?}", args[2], script_text(&s), e.executions, e.steps, e.failure.as_ref().map(|f| f.0.lines().next().unwrap_or("").to_string()));
+            for a in abs.lock().unwrap().iter() {
+                println!("  Q {a}");
+            }
+            if let Some((_, ch)) = &e.failure {
+                println!("choices {ch:?}");
+                let (l1, f1, n1) = replay_schedule(&s, ch);
+                let (l2, f2, n2) = replay_schedule(&s, ch);
+                println!("replay1 log {l1:?} fail {:?} nd {n1:?}", f1.map(|m| m.lines().next().unwrap_or("").to_string()));
+                println!("replay2 log {l2:?} fail {:?} nd {n2:?}", f2.map(|m| m.lines().next().unwrap_or("").to_string()));
+            }
+        }
+        Some("replay") => {
+            let text = std::fs::read_to_string(&args[2]).expect("replay file");
+            let j = J::parse(&text).expect("json");
+            let case = j.get("case").cloned().unwrap_or(J::Null);
+            let script = case.get("script").and_then(|x| x.as_str()).unwrap_or("").as_bytes().to_vec();
+            let choices: Vec<usize> = case.get("schedule").and_then(|x| x.as_arr()).map(|a| a.iter().filter_map(|x| x.as_i64().map(|v| v as usize)).collect()).unwrap_or_default();
+            println!("replaying script {} [{}] with a schedule of {} choices", String::from_utf8_lossy(&script), script_text(&script), choices.len());
+            let (log, f, nd) = replay_schedule(&script, &choices);
+            println!("responses: {log:?}");
+            if let Some(nd) = nd {
+                println!("replay diverged: {nd}");
+                std::process::exit(2);
+            }
+            match f {
+                Some(m) => {
+                    println!("replay: VIOLATION {}", m.lines().next().unwrap_or(""));
+                    std::process::exit(1);
+                }
+                None => {
+                    println!("replay: no violation observed");
+                    std::process::exit(0);
+                }
+            }
+        }
+        _ => {
+            eprintln!("usage: tvc-sched C05 <quick|thorough> | tvc-sched replay <file> | tvc-sched script <letters> <bound>");
+            std::process::exit(2);
+        }
+    }
+}
